@@ -828,6 +828,12 @@ impl<S: BitmapSlice + Send + Sync> FileSystem for PassthroughFs<S> {
             // open_inode().
             None => {
                 let open_existing = || -> io::Result<File> {
+                    // open(2) with O_CREAT on an existing directory fails with EISDIR; the
+                    // re-open below would drop O_CREAT and hand out a directory handle instead.
+                    if is_dir(entry.attr.st_mode) {
+                        return Err(io::Error::from_raw_os_error(libc::EISDIR));
+                    }
+
                     // Cap restored when _killpriv is dropped
                     let _killpriv = if self.killpriv_v2.load(Ordering::Relaxed)
                         && (args.fuse_flags & FOPEN_IN_KILL_SUIDGID != 0)
